@@ -1,0 +1,485 @@
+//go:build verif
+
+// Contracts for package dials, checked by /verif/govc (see /verif/DESIGN.md).  This file is
+// comment-only: with the build tag off it is not compiled, with it on it compiles to nothing.
+// Clause labels that start with property ids (C04_...) attribute the obligation to those properties.
+
+package dials
+
+// ---------------------------------------------------------------------------------------------
+// ghost protocol state shared by C04..C09
+// ---------------------------------------------------------------------------------------------
+
+//@ ghost vlogLen int
+//@ ghost vlogCfg map[int]Iface
+//@ ghost vlogErr map[int]Iface
+//@ ghost vlogTime map[int]int
+//@ ghost cbAnnounced int
+//@ ghost cbSeen int
+//@ ghost cbSeenCfg Ref
+//@ ghost registeredEver map[Ref]bool
+//@ ghost unregistered map[Ref]bool
+//@ ghost delivered map[Ref]int
+
+//@ macro stored(d *Dials) *versionedConfig = atomicval[&d.value]
+//@ macro wfDials(d *Dials) bool = d != nil && stored(d) != nil && hist[&d.value][stored(d)]
+//@     && (forall v Ref :: {hist[&d.value][v]} hist[&d.value][v] ==> v != nil)
+//@ macro chanOpen(ch Ref) bool = ch != nil && !closed[ch]
+//@ macro cfgEv(v Iface) *newConfigEvent = pay(v)
+//@ macro errEv(v Iface) *watchErrorEvent = pay(v)
+//@ macro regEv(v Iface) *userCallbackRegistration = pay(v)
+//@ macro unregEv(v Iface) *userCallbackUnregister = pay(v)
+//@ macro isCfgEv(v Iface) bool = isType(v, "*dials.newConfigEvent")
+//@ macro isErrEv(v Iface) bool = isType(v, "*dials.watchErrorEvent")
+//@ macro isRegEv(v Iface) bool = isType(v, "*dials.userCallbackRegistration")
+//@ macro isUnregEv(v Iface) bool = isType(v, "*dials.userCallbackUnregister")
+//@ const MaxUint64 int = 18446744073709551615
+//@ macro implV(c Iface) bool = c != nil && impl(c, "dials.VerifiedConfig")
+
+// Verify is user code: called by contract.  Its calls are logged (config, result, time).
+//@ iface dials.VerifiedConfig.Verify(v) (err)
+//@   modifies vlogLen, vlogCfg, vlogErr, vlogTime, evclock
+//@   ensures vlogLen == old(vlogLen) + 1
+//@   ensures vlogCfg == old(vlogCfg)[old(vlogLen) := v]
+//@   ensures vlogErr == old(vlogErr)[old(vlogLen) := err]
+//@   ensures vlogTime == old(vlogTime)[old(vlogLen) := old(evclock)] && evclock == old(evclock) + 1
+
+// User callbacks: arbitrary user code that does not touch the library's unexported state.
+//@ functype dials.NewConfigHandler(f, ctx, oldc, newc)
+//@ functype dials.WatchedErrorHandler(f, ctx, err, oldc, newc)
+
+// ---- the callback channel: what may travel on it (checked at every send, assumed at receive)
+//@ chantype "dials.userCallbackEvent" (v)
+//@   inv C08_known_type: isCfgEv(v) || isErrEv(v) || isRegEv(v) || isUnregEv(v)
+//@   inv C08_payload_nonnil: pay(v) != nil
+//@   inv C06_R1_increasing: isCfgEv(v) ==> cfgEv(v).serial > cbAnnounced
+//@   inv C06_reg_wf: isRegEv(v) ==> regEv(v).handle != nil && regEv(v).serial != nil && regEv(v).handle.cb != nil
+//@        && regEv(v).handle.minSerial == regEv(v).serial.s
+//@   inv C08_unreg_wf: isUnregEv(v) ==> chanOpen(unregEv(v).done)
+//@   onsend cbAnnounced = ite(isCfgEv(v), cfgEv(v).serial, cbAnnounced)
+//@   rely C06_R1_fifo: isCfgEv(v) ==> cfgEv(v).serial > cbSeen
+//@   rely C06_R4_registered_once: isRegEv(v) ==> !registeredEver[regEv(v).handle]
+//@   rely C06_R3_unregister_follows_register: isRegEv(v) ==> !unregistered[regEv(v).handle]
+//@   onrecv cbSeen = ite(isCfgEv(v), cfgEv(v).serial, cbSeen)
+//@   onrecv cbSeenCfg = ite(isCfgEv(v), cfgEv(v).newConfig, cbSeenCfg)
+//@   onrecv registeredEver = ite(isRegEv(v), registeredEver[regEv(v).handle := true], registeredEver)
+//@   onrecv delivered = ite(isRegEv(v), delivered[regEv(v).handle := regEv(v).handle.minSerial], delivered)
+
+// ---- the watcher channel
+//@ chantype "dials.watchStatusUpdate" (v)
+//@   inv C08_known_type: isType(v, "*dials.valueUpdate") || isType(v, "*dials.watcherDone") || isType(v, "*dials.watchErrorReport")
+//@   inv C08_payload_nonnil: pay(v) != nil
+//@   inv C07_reply_cap1: isType(v, "*dials.valueUpdate") && as(pay(v), "*valueUpdate").installed != nil ==>
+//@        chanOpen(as(pay(v), "*valueUpdate").installed) && chcap[as(pay(v), "*valueUpdate").installed] >= 1
+//@        && sent[as(pay(v), "*valueUpdate").installed] == 0
+
+// ---- the monitor control channel and its response channel
+//@ chantype "dials.verifyEnable" (v)
+//@   inv C09_resp_cap1: chanOpen(v.resp) && chcap[v.resp] >= 1 && sent[v.resp] == 0
+//@ chantype "dials.verifyEnableResp" (v)
+//@   inv C09_resp_error_has_no_config: v.err != nil ==> v.v == nil
+//@   inv C09_resp_success_is_a_snapshot: v.err == nil ==>
+//@        (exists p Ref, vc *versionedConfig :: hist[p][vc] && v.v == vc.cfg && v.tok.s == vc.serial && v.tok.cfg == vc.cfg)
+
+// ---------------------------------------------------------------------------------------------
+// readers
+// ---------------------------------------------------------------------------------------------
+
+//@ func dials.(*Dials).View(d) (c)
+//@   props C04 C08
+//@   safety C08
+//@   requires wfDials(d)
+//@   ensures C04_in_history: exists v *versionedConfig :: hist[&d.value][v] && c == v.cfg
+//@   ensures soleWriter ==> c == stored(d).cfg
+
+//@ func dials.(*Dials).ViewVersion(d) (c, tok)
+//@   props C05 C08
+//@   safety C08
+//@   requires wfDials(d)
+//@   ensures C05_snapshot: exists v *versionedConfig :: hist[&d.value][v] && c == v.cfg && tok.s == v.serial && tok.cfg == v.cfg
+//@   ensures soleWriter ==> c == stored(d).cfg && tok.s == stored(d).serial && tok.cfg == c
+
+//@ func dials.(*Dials).Events(d) (ch)
+//@   props C04 C08
+//@   safety C08
+//@   requires d != nil
+//@   ensures C04_events_is_updates_chan: ch == d.updatesChan
+
+// ---------------------------------------------------------------------------------------------
+// event submission
+// ---------------------------------------------------------------------------------------------
+
+//@ func dials.(*Dials).submitEvent(d, ctx, ev)
+//@   props C08
+//@   safety C08
+//@   flag nonblocking
+//@   flag record submitEvent
+//@   requires d != nil && ctx != nil
+//@   requires C08_send_open: d.cbch != nil ==> !closed[d.cbch]
+//@   requires isCfgEv(ev) || isErrEv(ev) || isRegEv(ev) || isUnregEv(ev)
+//@   requires pay(ev) != nil
+//@   requires C06_R1: isCfgEv(ev) ==> cfgEv(ev).serial > cbAnnounced
+//@   requires !isRegEv(ev) && !isUnregEv(ev)
+//@   modifies sent, sentlog_Iface, senttime, evclock, cbAnnounced, recvd, recvlog_struct{}
+//@   ensures C08_only_ctx_received: forall c Ref :: {recvd[c]} c != doneChan(ctx) ==> recvd[c] == old(recvd)[c]
+//@   ensures C08_dropped_or_queued:
+//@        (sent == old(sent) && sentlog_Iface == old(sentlog_Iface) && cbAnnounced == old(cbAnnounced) && evclock == old(evclock))
+//@     || (d.cbch != nil && sent == old(sent)[d.cbch := old(sent)[d.cbch] + 1]
+//@         && sentlog_Iface == old(sentlog_Iface)[d.cbch := old(sentlog_Iface)[d.cbch][old(sent)[d.cbch] := ev]]
+//@         && senttime[d.cbch][old(sent)[d.cbch]] == old(evclock) && evclock == old(evclock) + 1
+//@         && cbAnnounced == ite(isCfgEv(ev), cfgEv(ev).serial, old(cbAnnounced)))
+
+//@ func dials.(*Dials).submitEventBlocking(d, ctx, ev) (ok)
+//@   props C08
+//@   safety C08
+//@   flag ctx_guarded
+//@   requires d != nil && ctx != nil
+//@   requires isRegEv(ev) || isUnregEv(ev)
+//@   requires pay(ev) != nil
+//@   requires isRegEv(ev) ==> regEv(ev).handle != nil && regEv(ev).serial != nil && regEv(ev).handle.cb != nil
+//@        && regEv(ev).handle.minSerial == regEv(ev).serial.s
+//@   requires isUnregEv(ev) ==> chanOpen(unregEv(ev).done)
+//@   modifies sent, sentlog_Iface, senttime, evclock, cbAnnounced, recvd, recvlog_struct{}
+//@   ensures !ok ==> sent == old(sent)
+//@   ensures ok ==> d.cbch != nil && sent == old(sent)[d.cbch := old(sent)[d.cbch] + 1]
+
+// ---------------------------------------------------------------------------------------------
+// compose: used by contract here (its own obligations are under C01/C02).  Calls are recorded in
+// the call-history ghost rec_compose_*: arg0 = t, arg1 = sources, heap0 = the sourceValue.value
+// heap component at the time of the call, res0 / res1 = results.
+// ---------------------------------------------------------------------------------------------
+
+//@ func dials.compose(t, sources) (r, err)
+//@   flag unproved
+//@   flag record compose
+//@   flag record_heap dials.sourceValue.value
+//@   ensures C05_compose_err_nil_result: err != nil ==> r == nil
+//@   ensures C05_compose_type: err == nil ==> dyn(r) == dyn(t) && pay(r) != nil && fresh(pay(r))
+
+// ---------------------------------------------------------------------------------------------
+// the re-stack path (monitor goroutine only)
+// ---------------------------------------------------------------------------------------------
+
+//@ macro cmpErr(k int) Iface = rec_compose_res1[k]
+//@ macro cmpRes(k int) Iface = rec_compose_res0[k]
+//@ macro theErr(cc int, vl int) Iface = ite(cmpErr(cc) != nil, cmpErr(cc), vlogErr[vl])
+
+//@ func dials.(*Dials).updateSourceValue(d, ctx, t, skipVerify, sourceValues, watchTab) (nv)
+//@   props C04 C05 C07 C08 C09
+//@   safety C08
+//@   flag nonblocking
+//@   requires rely_sole_writer: soleWriter
+//@   requires wfDials(d) && ctx != nil && watchTab != nil
+//@   requires rely_no_serial_overflow: stored(d).serial < MaxUint64
+//@   requires C07_reply_cap1: watchTab.installed != nil ==> chanOpen(watchTab.installed) && chcap[watchTab.installed] >= 1 && sent[watchTab.installed] == 0
+//@   requires C08_cbch_open: d.cbch != nil ==> !closed[d.cbch]
+//@   requires C08_updates_open: d.updatesChan != nil ==> !closed[d.updatesChan]
+//@   requires watchTab.installed != d.cbch && watchTab.installed != d.updatesChan && d.cbch != d.updatesChan
+//@   requires C06_announced: cbAnnounced <= stored(d).serial
+//@   modifies atomicval, hist, storetime, evclock, sent, senttime, sentlog_Iface, sentlog_Ref, cbAnnounced, recvd, recvlog_struct{},
+//@            vlogLen, vlogCfg, vlogErr, vlogTime, dials.sourceValue.value, rec_compose, rec_submitEvent
+//@   loop 0:
+//@     invariant C05_no_earlier_match: forall k int :: 0 <= k && k < i ==> sourceValues[k].source != watchTab.source
+//@   ensures C08_only_ctx_received: forall c Ref :: {recvd[c]} c != doneChan(ctx) ==> recvd[c] == old(recvd)[c]
+//@   ensures C05_one_compose: rec_compose_cnt == old(rec_compose_cnt) + 1
+//@   ensures C05_compose_from_pristine: pay(rec_compose_arg0[old(rec_compose_cnt)]) == t && rec_compose_arg1[old(rec_compose_cnt)] == sourceValues
+//@   ensures C05_slot_replaced: forall k int :: 0 <= k && k < len(sourceValues) ==>
+//@        rec_compose_heap0[old(rec_compose_cnt)][eref(sourceValues.arr, sourceValues.off + k)] ==
+//@          ite(old(sourceValues[k].source) == watchTab.source
+//@              && (forall j int :: 0 <= j && j < k ==> old(sourceValues[j].source) != watchTab.source),
+//@              watchTab.value, old(sourceValues[k].value))
+//@   ensures C09_verify_iff: vlogLen == old(vlogLen) + b2i(cmpErr(old(rec_compose_cnt)) == nil && !skipVerify && implV(cmpRes(old(rec_compose_cnt))))
+//@   ensures C09_verify_this: vlogLen == old(vlogLen) + 1 ==> vlogCfg[old(vlogLen)] == cmpRes(old(rec_compose_cnt))
+//@   ensures C04_installed_iff: (nv != nil) <==> (cmpErr(old(rec_compose_cnt)) == nil && (vlogLen == old(vlogLen) || vlogErr[old(vlogLen)] == nil))
+//@   ensures C04_rejected_unchanged: nv == nil ==> atomicval == old(atomicval) && hist == old(hist)
+//@        && sent[d.updatesChan] == old(sent)[d.updatesChan] && cbAnnounced == old(cbAnnounced)
+//@   ensures C04_rejected_event: nv == nil && d.cbch != nil ==>
+//@        sent[d.cbch] == old(sent)[d.cbch]
+//@     || (sent[d.cbch] == old(sent)[d.cbch] + 1
+//@         && isErrEv(sentlog_Iface[d.cbch][old(sent)[d.cbch]])
+//@         && errEv(sentlog_Iface[d.cbch][old(sent)[d.cbch]]).err == theErr(old(rec_compose_cnt), old(vlogLen))
+//@         && errEv(sentlog_Iface[d.cbch][old(sent)[d.cbch]]).oldConfig == old(stored(d).cfg)
+//@         && errEv(sentlog_Iface[d.cbch][old(sent)[d.cbch]]).newConfig == ite(cmpErr(old(rec_compose_cnt)) != nil, nil, pay(cmpRes(old(rec_compose_cnt)))))
+//@   ensures C04_one_error_event_iff_rejected: rec_submitEvent_cnt == old(rec_submitEvent_cnt) + b2i(nv == nil)
+//@        && (nv == nil ==> isErrEv(rec_submitEvent_arg2[old(rec_submitEvent_cnt)]))
+//@   ensures C04_C05_installed: nv != nil ==> nv == pay(cmpRes(old(rec_compose_cnt)))
+//@        && stored(d) != nil && fresh(stored(d)) && stored(d).cfg == nv && stored(d).serial == old(stored(d).serial) + 1
+//@        && atomicval == old(atomicval)[&d.value := stored(d)]
+//@        && hist == old(hist)[&d.value := old(hist)[&d.value][stored(d) := true]]
+//@        && (d.cbch != nil ==> sent[d.cbch] == old(sent)[d.cbch]) && cbAnnounced == old(cbAnnounced)
+//@   ensures C04_verified_before_store: nv != nil && vlogLen == old(vlogLen) + 1 ==> vlogTime[old(vlogLen)] < storetime[stored(d)]
+//@   ensures C05_events_after_store: nv != nil && d.updatesChan != nil && sent[d.updatesChan] != old(sent)[d.updatesChan] ==>
+//@        sent[d.updatesChan] == old(sent)[d.updatesChan] + 1
+//@        && sentlog_Ref[d.updatesChan][old(sent)[d.updatesChan]] == nv
+//@        && senttime[d.updatesChan][old(sent)[d.updatesChan]] > storetime[stored(d)]
+//@   ensures C07_reply_once: watchTab.installed != nil ==> sent[watchTab.installed] == 1
+//@        && sentlog_Iface[watchTab.installed][0] == ite(nv != nil, nil, theErr(old(rec_compose_cnt), old(vlogLen)))
+//@   ensures C07_reply_after_store: nv != nil && watchTab.installed != nil ==> senttime[watchTab.installed][0] > storetime[stored(d)]
+//@   ensures C08_still_open: (d.cbch != nil ==> !closed[d.cbch]) && (d.updatesChan != nil ==> !closed[d.updatesChan])
+
+//@ func dials.(*Dials).markSourceDone(d, ctx, sourceValues, watchTab) (stillWatching)
+//@   props C08
+//@   safety C08
+//@   requires watchTab != nil
+//@   modifies dials.sourceValue.watching
+//@   loop 0:
+//@     invariant forall k int :: 0 <= k && k < i ==> sourceValues[k].source != watchTab.source
+//@   loop 1:
+//@     invariant forall k int :: 0 <= k && k < rangeidx ==> !sourceValues[k].watching
+//@   ensures C08_done_clears_first_match: forall k int :: 0 <= k && k < len(sourceValues) ==>
+//@        sourceValues[k].watching == (old(sourceValues[k].watching)
+//@           && !(old(sourceValues[k].source) == watchTab.source
+//@                && (forall j int :: 0 <= j && j < k ==> old(sourceValues[j].source) != watchTab.source)))
+//@   ensures C08_exit_iff_nobody_watching: stillWatching <==> (exists k int :: 0 <= k && k < len(sourceValues) && sourceValues[k].watching)
+
+// ---------------------------------------------------------------------------------------------
+// delayed verification
+// ---------------------------------------------------------------------------------------------
+
+//@ macro respOf(ch Ref) verifyEnableResp = sentval(ch, 0, "verifyEnableResp")
+
+//@ func dials.(*Dials).monitorEnableVerify(d, ve) (enabled)
+//@   props C09 C08
+//@   safety C08
+//@   flag nonblocking
+//@   requires rely_sole_writer: soleWriter
+//@   requires wfDials(d)
+//@   requires C09_resp_cap1: chanOpen(ve.resp) && chcap[ve.resp] >= 1 && sent[ve.resp] == 0
+//@   modifies sent, senttime, sentlog_verifyEnableResp, evclock, vlogLen, vlogCfg, vlogErr, vlogTime
+//@   ensures C09_verify_installed_once: vlogLen == old(vlogLen) + b2i(implT(tid("*T"), "dials.VerifiedConfig"))
+//@   ensures C09_verify_installed_cfg: vlogLen == old(vlogLen) + 1 ==> pay(vlogCfg[old(vlogLen)]) == stored(d).cfg
+//@   ensures C09_enabled_iff_ok: enabled <==> (vlogLen == old(vlogLen) || vlogErr[old(vlogLen)] == nil)
+//@   ensures C09_one_response: sent[ve.resp] == 1
+//@   ensures C09_response_ok: enabled ==> respOf(ve.resp).err == nil && respOf(ve.resp).v == stored(d).cfg
+//@        && respOf(ve.resp).tok.s == stored(d).serial && respOf(ve.resp).tok.cfg == stored(d).cfg
+//@   ensures C09_response_err: !enabled ==> respOf(ve.resp).err == vlogErr[old(vlogLen)] && respOf(ve.resp).err != nil && respOf(ve.resp).v == nil
+
+//@ func dials.(*Dials).EnableVerification(d, ctx) (cfg, tok, err)
+//@   props C09 C08
+//@   safety C08
+//@   flag ctx_guarded
+//@   requires wfDials(d) && ctx != nil
+//@   requires rely_monctl_open: d.monCtl != nil ==> !closed[d.monCtl]
+//@   modifies sent, senttime, evclock, recvd, chcap, closed, sentlog_verifyEnable, vlogLen, vlogCfg, vlogErr, vlogTime
+//@   ensures C09_nodelay_noverify: !d.params.DelayInitialVerification ==> vlogLen == old(vlogLen) && err == nil
+//@   ensures C09_success_returns_installed: err == nil && d.monCtl == nil ==>
+//@        (exists v *versionedConfig :: hist[&d.value][v] && cfg == v.cfg && tok.s == v.serial && tok.cfg == v.cfg)
+//@   ensures C09_nowatch_verify_result: d.params.DelayInitialVerification && d.monCtl == nil && vlogLen == old(vlogLen) + 1 ==> err == vlogErr[old(vlogLen)]
+//@   ensures C09_failure_returns_nothing: err != nil ==> cfg == nil
+
+// ---------------------------------------------------------------------------------------------
+// the monitor goroutine
+// ---------------------------------------------------------------------------------------------
+
+//@ func dials.(*Dials).monitor(d, ctx, t, sourceValues, watcherChan, monCtl)
+//@   props C04 C06 C08 C09
+//@   safety C08
+//@   flag nonblocking
+//@   flag blocking_select_ok 0
+//@   requires rely_sole_writer: soleWriter
+//@   requires wfDials(d) && ctx != nil
+//@   requires chanOpen(d.cbch) && chanOpen(d.updatesChan) && d.cbch != d.updatesChan
+//@   requires rely_announced_init: cbAnnounced <= stored(d).serial
+//@   requires wf_chan_types_distinct: monCtl != doneChan(ctx) && watcherChan != doneChan(ctx) && monCtl != watcherChan
+//@   modifies *
+//@   loop 0:
+//@     invariant wfDials(d) && chanOpen(d.cbch) && chanOpen(d.updatesChan) && d.cbch != d.updatesChan
+//@     invariant C06_announced_le_stored: cbAnnounced <= stored(d).serial
+//@     invariant C09_skip_only_when_delayed: skipVerify ==> d.params.DelayInitialVerification
+//@     iter_ensures C09_source_error_delivered_iff: isType(watchTab, "*dials.watchErrorReport") ==>
+//@          ((rec_submitEvent_cnt == old(rec_submitEvent_cnt) + 1)
+//@            <==> !(old(skipVerify) && d.params.CallGlobalCallbacksAfterVerificationEnabled))
+//@     iter_ensures C06_every_install_announced: stored(d) != old(stored(d)) ==>
+//@          rec_submitEvent_cnt == old(rec_submitEvent_cnt) + 1 && isCfgEv(rec_submitEvent_arg2[old(rec_submitEvent_cnt)])
+//@          && cfgEv(rec_submitEvent_arg2[old(rec_submitEvent_cnt)]).serial == stored(d).serial
+//@     iter_ensures C06_one_install_per_iteration: stored(d) == old(stored(d)) || stored(d).serial == old(stored(d).serial) + 1
+//@     iter_ensures C09_delay_only_ends: skipVerify ==> old(skipVerify)
+//@     iter_ensures C09_delay_ends_only_after_successful_verify: old(skipVerify) && !skipVerify ==>
+//@          recvd[monCtl] == old(recvd)[monCtl] + 1 && (vlogLen == old(vlogLen) || (vlogLen == old(vlogLen) + 1 && vlogErr[old(vlogLen)] == nil))
+//@     iter_ensures C09_failed_enable_keeps_delay: old(skipVerify) && recvd[monCtl] == old(recvd)[monCtl] + 1
+//@          && vlogLen == old(vlogLen) + 1 && vlogErr[old(vlogLen)] != nil ==> skipVerify
+//@     iter_ensures C09_no_verify_while_delayed: old(skipVerify) && recvd[monCtl] == old(recvd)[monCtl] ==> vlogLen == old(vlogLen)
+//@     iter_ensures C09_enabled_already_no_verify: !old(skipVerify) && recvd[monCtl] == old(recvd)[monCtl] + 1 ==> vlogLen == old(vlogLen)
+//@   at call d.updateSourceValue:
+//@     assume rely_no_serial_overflow: stored(d).serial < MaxUint64
+//@     assume rely_reply_chan_private: v.installed != d.cbch && v.installed != d.updatesChan
+//@   at call d.submitEvent(ctx, &newConfigEvent:
+//@     assert C06_R2_event_is_installed_version: isCfgEv(arg2)
+//@          && cfgEv(arg2).serial == stored(d).serial && cfgEv(arg2).newConfig == stored(d).cfg
+//@          && cfgEv(arg2).oldConfig == oldConfig && cfgEv(arg2).serial == oldSerial.s + 1
+//@     assert C09_suppress_iff: cfgEv(arg2).globalCBsSuppressed == (skipVerify && d.params.CallGlobalCallbacksAfterVerificationEnabled)
+//@   at call d.submitEvent(ctx, &watchErrorEvent:
+//@     assert C09_source_error_not_suppressed: !(skipVerify && d.params.CallGlobalCallbacksAfterVerificationEnabled)
+//@     assert C04_source_error_event: isErrEv(arg2) && errEv(arg2).err != nil && errEv(arg2).oldConfig == stored(d).cfg && errEv(arg2).newConfig == nil
+//@   ensures C08_exit_closes: closed[d.cbch]
+
+// ---------------------------------------------------------------------------------------------
+// public API that talks to the callback goroutine
+// ---------------------------------------------------------------------------------------------
+
+//@ func dials.(*Dials).RegisterCallback(d, ctx, serial, cb) (unreg)
+//@   props C06 C08
+//@   safety C08
+//@   requires d != nil && ctx != nil
+//@   requires api_precondition_cb_nonnil: cb != nil
+//@   modifies sent, sentlog_Iface, senttime, evclock, cbAnnounced, recvd, recvlog_struct{}
+//@   ensures C08_nil_on_failure: unreg == nil ==> sent == old(sent)
+//@   ensures C06_registration_queued: unreg != nil ==> d.cbch != nil && sent[d.cbch] == old(sent)[d.cbch] + 1
+
+//@ func dials.(*userCallbackUnregisterToken).unregister(u, ctx) (ok)
+//@   props C06 C08
+//@   safety C08
+//@   flag ctx_guarded
+//@   requires u != nil && u.d != nil && ctx != nil && u.h != nil
+//@   requires wf_allocated: allocated(u.d.cbch)
+//@   modifies sent, sentlog_Iface, senttime, evclock, cbAnnounced, chcap, closed, recvd, recvlog_struct{}
+//@   ensures C06_true_only_after_ack: ok ==> u.d.cbch != nil && sent[u.d.cbch] == old(sent)[u.d.cbch] + 1
+
+// ---------------------------------------------------------------------------------------------
+// watchArgs: what sources use to report
+// ---------------------------------------------------------------------------------------------
+
+//@ func dials.(*watchArgs).ReportNewValue(w, ctx, val) (err)
+//@   props C07 C08
+//@   safety C08
+//@   flag ctx_guarded
+//@   requires w != nil && ctx != nil
+//@   requires rely_watcher_chan_open: w.c != nil ==> !closed[w.c]
+//@   requires wf_allocated: allocated(w.c) && recvd[doneChan(ctx)] >= 0
+//@   modifies sent, sentlog_Iface, senttime, evclock, recvd, H:dials.valueUpdate.source, H:dials.valueUpdate.value, H:dials.valueUpdate.installed
+//@   ensures C07_submitted_iff_nil: err == nil ==> sent[w.c] == old(sent)[w.c] + 1 && isType(sentlog_Iface[w.c][old(sent)[w.c]], "*dials.valueUpdate")
+//@        && as(pay(sentlog_Iface[w.c][old(sent)[w.c]]), "*valueUpdate").value == val
+//@        && as(pay(sentlog_Iface[w.c][old(sent)[w.c]]), "*valueUpdate").source == w.s
+//@        && as(pay(sentlog_Iface[w.c][old(sent)[w.c]]), "*valueUpdate").installed == nil
+//@   ensures err != nil ==> sent == old(sent)
+
+//@ func dials.(*watchArgs).BlockingReportNewValue(w, ctx, val) (err)
+//@   props C07 C08
+//@   safety C08
+//@   flag ctx_guarded
+//@   requires w != nil && ctx != nil
+//@   requires rely_watcher_chan_open: w.c != nil ==> !closed[w.c]
+//@   requires wf_allocated: allocated(w.c) && recvd[doneChan(ctx)] >= 0
+//@   modifies sent, sentlog_Iface, senttime, evclock, chcap, closed, recvd, recvlog_Iface, H:dials.valueUpdate.source, H:dials.valueUpdate.value, H:dials.valueUpdate.installed
+//@   ensures C07_nil_only_after_nil_reply: err == nil ==> sent[w.c] == old(sent)[w.c] + 1
+//@        && isType(sentlog_Iface[w.c][old(sent)[w.c]], "*dials.valueUpdate")
+//@        && as(pay(sentlog_Iface[w.c][old(sent)[w.c]]), "*valueUpdate").value == val
+//@        && as(pay(sentlog_Iface[w.c][old(sent)[w.c]]), "*valueUpdate").source == w.s
+//@        && fresh(as(pay(sentlog_Iface[w.c][old(sent)[w.c]]), "*valueUpdate").installed)
+//@        && chcap[as(pay(sentlog_Iface[w.c][old(sent)[w.c]]), "*valueUpdate").installed] == 1
+//@        && recvd[as(pay(sentlog_Iface[w.c][old(sent)[w.c]]), "*valueUpdate").installed] == 1
+//@        && recvlog_Iface[as(pay(sentlog_Iface[w.c][old(sent)[w.c]]), "*valueUpdate").installed][0] == nil
+//@   ensures C07_error_is_reported: err != nil || sent[w.c] == old(sent)[w.c] + 1
+
+//@ func dials.(*watchArgs).Done(w, ctx)
+//@   props C08
+//@   safety C08
+//@   flag ctx_guarded
+//@   requires w != nil && ctx != nil
+//@   requires rely_watcher_chan_open: w.c != nil ==> !closed[w.c]
+//@   requires wf_allocated: allocated(w.c) && recvd[doneChan(ctx)] >= 0
+//@   modifies sent, sentlog_Iface, senttime, evclock, recvd
+
+//@ func dials.(*watchArgs).ReportError(w, ctx, err) (rerr)
+//@   props C08
+//@   safety C08
+//@   flag ctx_guarded
+//@   requires w != nil && ctx != nil
+//@   requires rely_watcher_chan_open: w.c != nil ==> !closed[w.c]
+//@   requires wf_allocated: allocated(w.c) && recvd[doneChan(ctx)] >= 0
+//@   modifies sent, sentlog_Iface, senttime, evclock, recvd
+//@   ensures rerr == nil ==> sent[w.c] == old(sent)[w.c] + 1
+
+// ---------------------------------------------------------------------------------------------
+// the callback goroutine
+// ---------------------------------------------------------------------------------------------
+
+//@ macro hBound(h *userCallbackHandle, last int) bool = h.minSerial <= delivered[h] && (delivered[h] <= last || delivered[h] <= h.minSerial)
+
+//@ macro hBoundStrict(h *userCallbackHandle, next int) bool = h.minSerial <= delivered[h] && (delivered[h] < next || delivered[h] <= h.minSerial)
+
+//@ func dials.(*callbackMgr).runCBs(cbm, ctx)
+//@   props C06 C08
+//@   safety C08
+//@   requires cbm != nil && cbm.p != nil && cbm.ch != nil
+//@   requires rely_fresh_goroutine: cbSeen == 0 && cbSeenCfg == nil && (forall h Ref :: !registeredEver[h])
+//@   modifies *
+//@   loop 0:
+//@     invariant C06_last_is_last_seen: lastSerial == cbSeen && lastVersion == cbSeenCfg
+//@     invariant wf_handles: forall k int :: 0 <= k && k < len(newCfgCBs) ==>
+//@          newCfgCBs[k] != nil && newCfgCBs[k].cb != nil && registeredEver[newCfgCBs[k]]
+//@     invariant C06_no_duplicates: forall j int, k int :: 0 <= j && j < k && k < len(newCfgCBs) ==> newCfgCBs[j] != newCfgCBs[k]
+//@     invariant C06_delivered_bound: forall k int :: 0 <= k && k < len(newCfgCBs) ==> hBound(newCfgCBs[k], lastSerial)
+//@     invariant C06_unregistered_are_gone: forall k int :: 0 <= k && k < len(newCfgCBs) ==> !unregistered[newCfgCBs[k]]
+//@     invariant cbm != nil && cbm.p != nil
+//@   loop 1:
+//@     invariant C06_visited_delivered: forall k int :: 0 <= k && k < rangeidx && k < len(newCfgCBs) ==> hBound(newCfgCBs[k], e.serial)
+//@     invariant C06_unvisited_untouched: forall k int :: rangeidx <= k && k < len(newCfgCBs) ==> hBoundStrict(newCfgCBs[k], e.serial)
+//@   loop 2:
+//@     invariant forall a int :: 0 <= a && a < len(removed) ==> removed[a] != e.handle
+//@          && (exists j int :: 0 <= j && j < rangeidx && j < len(newCfgCBs) && newCfgCBs[j] == removed[a])
+//@     invariant forall a int, b int :: 0 <= a && a < b && b < len(removed) ==> removed[a] != removed[b]
+//@     invariant len(removed) <= rangeidx && removed.arr != newCfgCBs.arr
+//@     invariant forall k int :: 0 <= k && k < len(newCfgCBs) ==>
+//@          newCfgCBs[k] != nil && newCfgCBs[k].cb != nil && registeredEver[newCfgCBs[k]]
+//@          && hBound(newCfgCBs[k], lastSerial) && !unregistered[newCfgCBs[k]]
+//@     invariant forall j int, k int :: 0 <= j && j < k && k < len(newCfgCBs) ==> newCfgCBs[j] != newCfgCBs[k]
+//@   at call cbm.p.OnWatchedError:
+//@     assert C04_error_callback_args: arg2 == e.err && arg3 == e.oldConfig && arg4 == e.newConfig
+//@   at call cbm.p.OnNewConfig:
+//@     assert C09_global_not_suppressed: !e.globalCBsSuppressed
+//@     assert C06_global_args: arg2 == e.oldConfig && arg3 == e.newConfig
+//@   at call cbh.cb:
+//@     assert C06_deliver_fresh: e.serial > cbh.minSerial && e.serial > delivered[cbh]
+//@     assert C06_deliver_args: arg2 == e.oldConfig && arg3 == e.newConfig
+//@     assert C06_not_after_unregister: !unregistered[cbh]
+//@     ghostset delivered[cbh] = e.serial
+//@   at call e.handle.cb:
+//@     assert C06_catchup_only_if_behind: e.serial.cfg != nil && e.serial.s < cbSeen
+//@     assert C06_catchup_args: arg2 == e.serial.cfg && arg3 == cbSeenCfg
+//@     assert C06_catchup_fresh: cbSeen > e.handle.minSerial && cbSeen > delivered[e.handle]
+//@     ghostset delivered[e.handle] = cbSeen
+//@   at call append(newCfgCBs:
+//@     assert C06_catchup_if_behind: (e.serial.cfg != nil && e.serial.s < cbSeen) ==> delivered[e.handle] == cbSeen
+//@   at call close:
+//@     assert C06_unregister_removed_before_ack: forall k int :: 0 <= k && k < len(newCfgCBs) ==> newCfgCBs[k] != e.handle
+//@     ghostset unregistered[e.handle] = true
+
+// ---------------------------------------------------------------------------------------------
+// Config
+// ---------------------------------------------------------------------------------------------
+
+// Sources and watchers are user code: called by contract, they cannot touch the ghost protocol state.
+//@ iface dials.Source.Value(s, ctx, typ) (v, err)
+//@ iface dials.Watcher.Watch(w, ctx, typ, args) (err)
+
+//@ func dials.realDeepCopy(in) (out)
+//@   ensures in != nil ==> valid(out) && vtype(out) == typeOfDyn(dyn(in)) && canInterface(out)
+//@ extern func ptrify.Pointerify(t, v) (r)
+//@   pure
+//@ extern func reflect.(Value).Elem(v) (e)
+//@   pure
+
+//@ func dials.(Params).Config(p, ctx, t, sources) (d, err)
+//@   props C04 C05 C08 C09
+//@   safety C08
+//@   requires ctx != nil
+//@   requires api_precondition_sources_nonnil: forall k int :: 0 <= k && k < len(sources) ==> sources[k] != nil
+//@   modifies *
+//@   loop 0:
+//@     invariant C09_no_verify_while_reading_sources: vlogLen == old(vlogLen) && rec_compose_cnt == old(rec_compose_cnt)
+//@     invariant chanOpen(watcherChan)
+//@   at call d.value.Store:
+//@     assume rely_fresh_history: forall v Ref :: !hist[&d.value][v]
+//@   ensures C04_error_returns_no_dials: err != nil ==> d == nil
+//@   ensures C04_success_returns_dials: err == nil ==> d != nil
+//@   ensures C05_one_compose: err == nil ==> rec_compose_cnt == old(rec_compose_cnt) + 1
+//@   ensures C04_C09_initial_verify_iff: err == nil ==> vlogLen == old(vlogLen)
+//@        + b2i(!p.SkipInitialVerification && !p.DelayInitialVerification && implV(cmpRes(old(rec_compose_cnt))))
+//@   ensures C04_initial_config_verified: err == nil && vlogLen == old(vlogLen) + 1 ==>
+//@        vlogErr[old(vlogLen)] == nil && vlogCfg[old(vlogLen)] == cmpRes(old(rec_compose_cnt))
+//@   ensures C09_no_early_verify: p.SkipInitialVerification || p.DelayInitialVerification ==> vlogLen == old(vlogLen)
+//@   ensures C05_initial_version: err == nil ==> stored(d) != nil && stored(d).serial == 0
+//@        && stored(d).cfg == pay(cmpRes(old(rec_compose_cnt))) && hist[&d.value][stored(d)]
+//@   ensures C05_events_chan: err == nil ==> chanOpen(d.updatesChan) && chcap[d.updatesChan] == 1 && sent[d.updatesChan] == 0
+//@   ensures C08_callback_chan_iff_watching: err == nil ==> ((d.cbch != nil) <==> (d.monCtl != nil))
